@@ -92,6 +92,14 @@ pub enum PatList {
     /// (selects the packed prefilter through the 'no start/rare prefilter'
     /// fallback; exercises ordering of equal patterns in larger sets)
     MidPacked { raws: Vec<Vec<u8>>, dups: Vec<(u16, u16)> },
+    /// 126..135 patterns sharing <= 3 first bytes (or <= 3 rare bytes),
+    /// followed by a few patterns of a different kind: things that count
+    /// patterns (the 128-pattern limit of the packed builder, ...) must not
+    /// silently drop the late ones
+    ManyThenOdd { base: Box<PatList>, n: u8, odd: Vec<Vec<u8>> },
+    /// n nested patterns p, pp, ppp, ... (or all prefixes of a long word):
+    /// states that carry hundreds of matches
+    DeepNested { unit: Vec<u8>, n: u16, reverse: bool },
     /// long patterns (>= 64 bytes) that are proper prefixes / suffixes of
     /// each other, in generated order, plus a few short companions
     LongNested { base: Vec<u8>, cuts: Vec<(u16, bool)>, extra: Vec<Vec<u8>>, rotate: u8 },
@@ -222,6 +230,17 @@ fn shaped_list() -> BoxedStrategy<PatList> {
             .prop_map(|(raws, dups)| PatList::MidPacked { raws, dups }),
         2 => (vec(any::<u8>(), 70..=140), vec((any::<u16>(), any::<bool>()), 1..=4), vec(vec(any::<u8>(), 2..=6), 0..=4), any::<u8>())
             .prop_map(|(base, cuts, extra, rotate)| PatList::LongNested { base, cuts, extra, rotate }),
+        1 => (vec(any::<u8>(), 1..=2), prop_oneof![6 => 2u16..=60, 2 => 250u16..=260, 1 => 261u16..=320], any::<bool>())
+            .prop_map(|(unit, n, reverse)| PatList::DeepNested { unit, n, reverse }),
+        2 => (
+            prop_oneof![
+                (vec(any::<u8>(), 1..=3), vec((any::<u8>(), vec(any::<u8>(), 1..=4)), 4..=8)).prop_map(|(firsts, tails)| PatList::StartBytes { firsts, tails }),
+                (vec(any::<u8>(), 1..=3), vec((any::<u8>(), vec(any::<u8>(), 0..=4), vec(any::<u8>(), 0..=3), any::<u8>()), 4..=9)).prop_map(|(rares, items)| PatList::RareBytes { rares, items }),
+            ],
+            126u8..=135,
+            vec(vec(any::<u8>(), 2..=5), 1..=3),
+        )
+            .prop_map(|(base, n, odd)| PatList::ManyThenOdd { base: Box::new(base), n, odd }),
         // around the packed searcher's 128-pattern limit and beyond
         1 => (vec(vec(any::<u8>(), 2..=5), 120..=200), vec((any::<u16>(), any::<u16>()), 0..=4))
             .prop_map(|(raws, dups)| PatList::MidPacked { raws, dups }),
@@ -413,7 +432,13 @@ pub fn realize_patterns(list: &PatList, alpha: &[u8]) -> Vec<Vec<u8>> {
                     let mut p = Vec::new();
                     if !pre.is_empty() {
                         p.push(pick(b"etaoinsrhldcum", *first));
-                        p.extend(pre[1..].iter().map(|&x| filler(x)));
+                        if pre.len() > 40 {
+                            // long prefix: common letters only, so that the
+                            // pattern's only rare byte sits at a large offset
+                            p.extend(pre[1..].iter().map(|&x| pick(COMMON, x)));
+                        } else {
+                            p.extend(pre[1..].iter().map(|&x| filler(x)));
+                        }
                     }
                     let ri = (*r as usize * rares.len()) >> 8;
                     // every third pattern: one byte in front of its rare byte
@@ -438,10 +463,55 @@ pub fn realize_patterns(list: &PatList, alpha: &[u8]) -> Vec<Vec<u8>> {
             let text = alphabet(ALPHA_TEXT);
             let a: &[u8] = if alpha.len() >= 8 { alpha } else if raws.len() % 2 == 0 { &full } else { &text };
             let mut out: Vec<Vec<u8>> = raws.iter().map(|r| map_bytes(a, r)).collect();
+            // shortest pattern 2, 3 or 4 bytes (selects the Teddy mask length)
+            let minlen = 2 + (raws[0][0] as usize % 3);
+            for p in out.iter_mut() {
+                let orig = p.clone();
+                let mut i = 0;
+                while p.len() < minlen {
+                    p.push(orig[i % orig.len()]);
+                    i += 1;
+                }
+            }
             for (from, at) in dups {
                 let src = out[idx(*from, out.len())].clone();
                 let pos = idx(*at, out.len() + 1);
                 out.insert(pos, src);
+            }
+            out
+        }
+        PatList::ManyThenOdd { base, n, odd } => {
+            let seedlist = realize_patterns(base, alpha);
+            let mut out: Vec<Vec<u8>> = Vec::with_capacity(*n as usize + odd.len());
+            let mut i = 0usize;
+            while out.len() < *n as usize {
+                // distinct patterns: the cycled base pattern plus a counter suffix
+                let mut p = seedlist[i % seedlist.len()].clone();
+                if i >= seedlist.len() {
+                    p.push(b'0' + ((i / seedlist.len()) % 10) as u8);
+                    p.push(b'a' + ((i / (10 * seedlist.len())) % 26) as u8);
+                }
+                out.push(p);
+                i += 1;
+            }
+            // the late, different patterns: first bytes unlike the others
+            for (k, o) in odd.iter().enumerate() {
+                let mut p = vec![[b'~', b'^', b'|'][k % 3]];
+                p.extend(map_bytes(alpha, o));
+                out.push(p);
+            }
+            out
+        }
+        PatList::DeepNested { unit, n, reverse } => {
+            let unit = map_bytes(alpha, unit);
+            let mut out: Vec<Vec<u8>> = Vec::with_capacity(*n as usize);
+            let mut cur = Vec::new();
+            for _ in 0..*n {
+                cur.extend_from_slice(&unit);
+                out.push(cur.clone());
+            }
+            if *reverse {
+                out.reverse();
             }
             out
         }
@@ -816,6 +886,8 @@ pub fn search_case(o: SearchOpts) -> BoxedStrategy<Case> {
                 PatList::Fanout { .. } => "fanout",
                 PatList::MidPacked { .. } => "midpacked",
                 PatList::LongNested { .. } => "longnested",
+                PatList::ManyThenOdd { .. } => "manythenodd",
+                PatList::DeepNested { .. } => "deepnested",
             };
             Case {
                 prop: prop.to_string(),
